@@ -8,6 +8,7 @@ import os, json
 import vlib
 from checks import pipeline_common as pc
 from checks import c02
+from checks import c01
 
 
 def run(rep, tier, seed):
@@ -46,13 +47,16 @@ def run(rep, tier, seed):
     for sc in scens:
         if sc[0].get("cancel", -1) >= 0:
             rep.case([[e.get("g"), e.get("ev"), e.get("start")] for e in sc], True)
+    # AssembleFile (extract): every scenario cancelled at a random event
+    bin3 = vlib.go_build("c01")
+    c01.drive(rep, work, bin3, seed + 3, 2500 if thorough else 500, "assemble-cancel", extra=["-cancelevery", "1"])
     rep.rule = ("case = small input x entry point in {ChopFile, Copy, ChunkStream, VerifyIndex, IndexFromFile} x 1-3 workers x cancellation "
                 "of the caller's context at the k-th recorded event (every k for small runs, bounded sample otherwise; k = 0 is "
                 "'before start') x random/PCT schedule; distinct = different event sequence; non-trivial = >= 2 units of work")
     rep.trusted = ["gate scheduler; cancellation is performed inside the scheduler's critical section, so its position in the trace is exact"]
     rep.assumptions = ["CLI signal handling (SIGINT/SIGTERM -> context cancellation in cmd/desync/main.go) and AssembleFile/untar are "
                        "covered by the extract/untar drivers when present in this evidence (see coverage.entry_points)"]
-    rep.extra["entry_points"] = ["ChopFile", "Copy", "ChunkStream", "VerifyIndex", "IndexFromFile"]
+    rep.extra["entry_points"] = ["ChopFile", "Copy", "ChunkStream", "VerifyIndex", "IndexFromFile", "AssembleFile"]
 
 
 def replay(path):
@@ -61,7 +65,9 @@ def replay(path):
     f = os.path.join(work, "trace.ndjson")
     ev = d["replay"]["events"]
     vlib.write_ndjson(f, ev)
-    if any(e.get("ev", "").startswith("pc.") for e in ev):
+    if any(e.get("ev", "").startswith("asm.") for e in ev):
+        res, info = vlib.validate_trace("Trace_Assemble", c01.TRACE_CFG, f, work)
+    elif any(e.get("ev", "").startswith("pc.") for e in ev):
         res, info = vlib.validate_trace("Trace_ParChunker", c02.TRACE_CFG, f, work)
     else:
         res, info = vlib.validate_trace("Trace_Pipeline", pc.TRACE_CFG, f, work)
